@@ -264,6 +264,11 @@ func replacementsFor(root *jnode, p jpath, typeURLs, enumNames []string) map[str
 			out["str:upper"] = strNode(strings.ToUpper(cur.S))
 			out["str:long"] = strNode(strings.Repeat("A", 5000))
 			out["str:nul"] = strNode(cur.S + "\x00")
+			// long strings whose length in bytes, runes and UTF-16 units differ by large factors (text that is cut,
+			// padded or measured on its way into an error message or an event)
+			out["str:long-4byte-runes"] = strNode(strings.Repeat("\U0001F600", 300))
+			out["str:long-fullwidth-digits"] = strNode(strings.Repeat("１", 400))
+			out["str:long-combining"] = strNode("a" + strings.Repeat("\u0301", 700))
 		}
 	}
 	if cur.K == jRaw && cur.S != "null" && cur.S != "true" && cur.S != "false" {
@@ -337,7 +342,7 @@ func SingleMutations(root *jnode, typeURLs, enumNames []string) []Mutation {
 				}})
 			}
 			// rename: camelCase <-> snake_case, upper case, unknown
-			for _, nk := range []string{toCamel(key), toSnake(key), strings.ToUpper(key), key + "_x"} {
+			for _, nk := range []string{toCamel(key), toSnake(key), strings.ToUpper(key), key + "_x", strings.Repeat("\U0001F600", 300), strings.Repeat("k", 3000)} {
 				nk := nk
 				if nk == key {
 					continue
